@@ -23,6 +23,7 @@ import (
 	"verif/internal/chainx"
 	"verif/internal/ev"
 	"verif/internal/minichain"
+	"verif/ref/refaddr"
 	"verif/ref/refchain"
 	"verif/ref/reftx"
 )
@@ -30,6 +31,35 @@ import (
 type OP = refchain.Outpoint
 
 var wsOP1 = func() []byte { h := sha256.Sum256([]byte{0x51}); return append([]byte{0x00, 0x20}, h[:]...) }()
+
+// Sigop-carrying redeem / witness script that evaluates to true on an empty stack:
+// OP_0 OP_IF (OP_16 OP_CHECKMULTISIG) x 198 OP_ENDIF OP_1 - 400 bytes, 200 counted opcodes,
+// 198*16 = 3168 signature operations by the accurate count.
+var heavy = func() []byte {
+	b := []byte{0x00, 0x63}
+	for i := 0; i < 198; i++ {
+		b = append(b, 0x60, 0xae)
+	}
+	return append(b, 0x68, 0x51)
+}()
+
+const heavyOps = 198 * 16
+
+func pushData(d []byte) []byte {
+	switch {
+	case len(d) < 0x4c:
+		return append([]byte{byte(len(d))}, d...)
+	case len(d) <= 0xff:
+		return append([]byte{0x4c, byte(len(d))}, d...)
+	}
+	return append([]byte{0x4d, byte(len(d)), byte(len(d) >> 8)}, d...)
+}
+
+var (
+	heavyWS    = func() []byte { h := sha256.Sum256(heavy); return append([]byte{0x00, 0x20}, h[:]...) }()
+	heavyP2SH  = append(append([]byte{0xa9, 0x14}, refaddr.Hash160(heavy)...), 0x87)
+	heavyP2SHW = append(append([]byte{0xa9, 0x14}, refaddr.Hash160(heavyWS)...), 0x87)
+)
 
 // verify: the trivial language plus P2WSH(OP_1): valid iff spent with witness [0x51]
 // and an empty scriptSig once the witness rules are active (anyone-can-spend before).
@@ -40,6 +70,22 @@ func verify(tx *reftx.Tx, idx int, spent []refchain.Coin, f refchain.Flags) bool
 			return len(in.Script) == 0
 		}
 		return len(in.Script) == 0 && len(in.Witness) == 1 && bytes.Equal(in.Witness[0], []byte{0x51})
+	}
+	in := &tx.In[idx]
+	oneHeavy := len(in.Witness) == 1 && bytes.Equal(in.Witness[0], heavy)
+	switch {
+	case bytes.Equal(spent[idx].Script, heavyP2SH):
+		return bytes.Equal(in.Script, pushData(heavy)) && len(in.Witness) == 0
+	case bytes.Equal(spent[idx].Script, heavyWS):
+		if !f.Witness {
+			return len(in.Script) == 0
+		}
+		return len(in.Script) == 0 && oneHeavy
+	case bytes.Equal(spent[idx].Script, heavyP2SHW):
+		if !f.Witness {
+			return bytes.Equal(in.Script, pushData(heavyWS))
+		}
+		return bytes.Equal(in.Script, pushData(heavyWS)) && oneHeavy
 	}
 	return refchain.Trivial(tx, idx, spent, f)
 }
@@ -81,6 +127,22 @@ func buildPrefix() *chainx.Prefix {
 			s.Txs = append(s.Txs, r)
 			p.Named[fmt.Sprint("R", h, ".0")] = OP{Tx: r.TxID()}
 			p.Named[fmt.Sprint("R", h, ".1")] = OP{Tx: r.TxID(), Vout: 1}
+			if h == 110 {
+				// sigop-carrying P2SH / P2WSH / P2SH-P2WSH coins
+				var so []reftx.Out
+				for i := 0; i < 8; i++ {
+					so = append(so, reftx.Out{Value: 1e8, Script: heavyP2SH})
+				}
+				so = append(so, reftx.Out{Value: 1e8, Script: heavyWS}, reftx.Out{Value: 1e8, Script: heavyWS}, reftx.Out{Value: 1e8, Script: heavyP2SHW})
+				hv := minichain.Spend([]OP{p.Cb[9]}, so)
+				s.Txs = append(s.Txs, hv)
+				for i := 0; i < 8; i++ {
+					p.Named[fmt.Sprint("PS", i)] = OP{Tx: hv.TxID(), Vout: uint32(i)}
+				}
+				p.Named["PW0"] = OP{Tx: hv.TxID(), Vout: 8}
+				p.Named["PW1"] = OP{Tx: hv.TxID(), Vout: 9}
+				p.Named["PSW0"] = OP{Tx: hv.TxID(), Vout: 10}
+			}
 		}
 	})
 }
@@ -292,6 +354,48 @@ func variants() []variant {
 		// scriptSig of a coinbase counts too: 0xac bytes inside the 100-byte coinbase script are data pushes? no:
 		// use a non-coinbase input whose scriptSig pushes nothing but the outputs carry the sigops; here 20001 in two outputs
 		return blk(c, 37, 0, 0, sp(ops(c.coin("M2")), outs(reftx.Out{Value: 5e8, Script: sigScript(10000)}, reftx.Out{Value: 5e8, Script: sigScript(10001)})))
+	}})
+	// sigop cost that is only reached when P2SH redeem scripts / witness scripts are counted
+	heavyBlk := func(c *ctx, tag byte, legacy int, coins ...string) *reftx.Block {
+		var in []OP
+		for _, n := range coins {
+			in = append(in, c.coin(n))
+		}
+		t := sp(in, outs(reftx.Out{Value: 1e7, Script: sigScript(legacy)}))
+		wit := false
+		for i, n := range coins {
+			switch n[:2] {
+			case "PW":
+				t.In[i].Witness, wit = [][]byte{heavy}, true
+			default:
+				if n[:3] == "PSW" {
+					t.In[i].Script, t.In[i].Witness, wit = pushData(heavyWS), [][]byte{heavy}, true
+				} else {
+					t.In[i].Script = pushData(heavy)
+				}
+			}
+		}
+		fee := uint64(len(coins))*1e8 - 1e7
+		return minichain.Build(minichain.Spec{Prev: c.parent, Height: c.height, Tag: tag, Txs: []*reftx.Tx{t}, Fees: fee, CbValue: -1, Witness: wit})
+	}
+	p2sh6 := []string{"PS0", "PS1", "PS2", "PS3", "PS4", "PS5"}
+	add(variant{name: "sigops-p2sh-redeem-scripts-80000", build: func(c *ctx) *reftx.Block {
+		return heavyBlk(c, 70, (80000-6*4*heavyOps)/4, p2sh6...)
+	}})
+	add(variant{name: "sigops-p2sh-redeem-scripts-80004", rule: "sigop cost", build: func(c *ctx) *reftx.Block {
+		return heavyBlk(c, 71, (80000-6*4*heavyOps)/4+1, p2sh6...)
+	}})
+	add(variant{name: "sigops-p2wsh-witness-scripts-80000", build: func(c *ctx) *reftx.Block {
+		return heavyBlk(c, 72, (80000-2*heavyOps)/4, "PW0", "PW1")
+	}})
+	add(variant{name: "sigops-p2wsh-witness-scripts-80004", rule: "sigop cost", build: func(c *ctx) *reftx.Block {
+		return heavyBlk(c, 73, (80000-2*heavyOps)/4+1, "PW0", "PW1")
+	}})
+	add(variant{name: "sigops-p2sh-p2wsh-80000", build: func(c *ctx) *reftx.Block {
+		return heavyBlk(c, 74, (80000-heavyOps)/4, "PSW0")
+	}})
+	add(variant{name: "sigops-p2sh-p2wsh-80004", rule: "sigop cost", build: func(c *ctx) *reftx.Block {
+		return heavyBlk(c, 75, (80000-heavyOps)/4+1, "PSW0")
 	}})
 	// BIP68 (tx version 2 by minichain.Spend)
 	bip68 := func(name string, seq uint32, ok bool) {
@@ -644,7 +748,7 @@ func main() {
 		"rule":                          fmt.Sprintf("chain states x all variants x all variant sequences to depth %d (quick omits invalid->invalid pairs); every delivery executed on the real chain from a copied prefix directory; verdict, tip and decoded UTXO map compared with refchain after each delivery", depth),
 	}, []string{
 		"reference model refchain (Core's connect rules incl. MoneyRange, BIP68, sigop cost) is the oracle",
-		"scripts are OP_1 / OP_0 / sigop-carrying output scripts; P2SH and witness sigop accounting and real script semantics are covered by C01 and will be added here when the reference interpreter is linked",
+		"scripts are OP_1 / OP_0 / sigop-carrying output scripts, plus one 400-byte redeem / witness script (an unexecuted branch with 198 OP_16 OP_CHECKMULTISIG) behind P2SH, P2WSH and P2SH-P2WSH outputs for the sigop cost that is only reached when redeem and witness scripts are counted; real script semantics are C01's",
 		"BIP30 is not in the property's rule list and is not judged",
 		"height 210000 is not reached through the chain; GetBlockReward is enumerated directly at every halving boundary",
 	})
